@@ -93,10 +93,22 @@ package ixbuf
 //@ spec outBelow(m *merge, k string) bool = (len(m.out) > 0 ==> m.out[len(m.out) - 1][len(m.out[len(m.out) - 1]) - 1].key < k) && (len(m.buf) > 0 ==> m.buf[len(m.buf) - 1].key <= k)
 //@ spec outStrictlyBelow(m *merge, k string) bool = outBelow(m, k) && (len(m.buf) > 0 ==> m.buf[len(m.buf) - 1].key < k)
 
+// flushbuf emits a COPY of the scratch buffer and keeps the buffer for reuse; outputChunk either passes the
+// chunk through whole or appends its slots to the scratch buffer - it never makes an input chunk its scratch
+// buffer (the input ixbufs are shared with older states and must not be written)
+//@ func (m *merge) flushbuf()
+//@   nosafety
+//@   requires m != nil
+//@   modifies m.out, m.size, m.buf, elems(m.out)
+//@   ensures! buf_reused: ref(m.buf) == old(ref(m.buf)) && len(m.buf) == 0
+//@   ensures! out_ref: ref(m.out) == old(ref(m.out)) || fresh(m.out)
+//@   ensures! out_grows: len(m.out) == old(len(m.out)) + (old(len(m.buf)) > 0 ? 1 : 0) && forall k :: 0 <= k && k < old(len(m.out)) ==> m.out[k] == old(m.out[k])
 //@ func (m *merge) outputChunk(c)
-//@   assumed
+//@   nosafety
 //@   requires m != nil && len(c) >= 1 && outStrictlyBelow(m, c[0].key)
-//@   modifies all
+//@   modifies m.out, m.size, m.buf, elems(m.out), elems(m.buf)
+//@   ensures! buffered_by_copy: old(len(c) <= m.goal / 2) ==> (ref(m.buf) == old(ref(m.buf)) || fresh(m.buf)) && len(m.buf) == old(len(m.buf)) + len(c)
+//@   ensures! passed_through_last: old(len(c) > m.goal / 2) ==> len(m.out) >= 1 && m.out[len(m.out) - 1] == c && len(m.buf) == 0
 
 //@ func (m *merge) passthru(in, i) (r)
 //@   requires m != nil && 0 <= i && i < len(in) && len(m.in) <= len(in) && (forall j :: 0 <= j && j < len(in) ==> len(in[j]) >= 1) && outBelow(m, in[i][0].key)
